@@ -53,6 +53,7 @@ type pair struct {
 	newSrc string // grol source of the session whose auto-save is interrupted (run after AutoLoad of the old file)
 	extras []extraFile
 	flags  []string // extra child flags for every session of this pair (e.g. maxlen=100)
+	allW   bool     // sweep every write of the save also in the quick tier (states holding more than plain globals)
 	// set for a session of a multi-save history: signature context ("after-<previous session's point>") and replay string
 	histCtx    string
 	replayCase string
@@ -871,6 +872,14 @@ func manyBindings(prefix string, n, valLen int, salt string) string {
 	return sb.String()
 }
 
+func manyMacros(n int) string {
+	var sb strings.Builder
+	for i := 1; i <= n; i++ {
+		fmt.Fprintf(&sb, "m%02d=macro(x){quote(unquote(x)+%d)}\n", i, i)
+	}
+	return sb.String()
+}
+
 func basePairs() []*pair {
 	return []*pair{
 		{name: "absent-to-1", hasOld: false, newSrc: "a=1"},
@@ -885,6 +894,12 @@ func basePairs() []*pair {
 		{name: "shrinking", hasOld: true, oldSrc: manyBindings("k", 12, 30, "old"), newSrc: "del(k000);del(k001);del(k002);del(k003);del(k004);del(k005);del(k006);del(k007);del(k008);del(k009);k011=1"},
 		// a value longer than the save limit is left out of the file (and nothing else is written for it)
 		{name: "over-limit", hasOld: true, oldSrc: "a=1\nc=0", newSrc: "c=3\nbig=\"y\"*300\nd=4\nfunc h(x){x}", flags: []string{"maxlen=100"}},
+		// what a State holds beyond plain globals: macros (few; many, more than globals), functions made by / using macros,
+		// lambdas, nested data.  Whatever SaveGlobals writes for them, every one of its writes is a fault point.
+		{name: "macros-few", hasOld: true, allW: true, oldSrc: "a=1\nm1=macro(x){quote(unquote(x)+1)}",
+			newSrc: "a=5\nm1=macro(x){quote(unquote(x)+1)}\nm2=macro(x,y){quote(unquote(x)*unquote(y))}\nb=m1(a)\nfunc viaMacro(v){m2(v,3)}\nc=viaMacro(2)"},
+		{name: "macros-many", hasOld: true, allW: true, oldSrc: "a=1\n" + manyMacros(12),
+			newSrc: "a=5\n" + manyMacros(12) + "g=func(y){m03(y)+m11(y)}\nfunc h(x){x}\nl=(p,q)=>p+q\nnested={\"k\":[1,{2:3}],\"f\":1.5}"},
 		{name: "leftovers", hasOld: true, oldSrc: "a=1\nb=\"hello\"", newSrc: "a=3\nz=[4,5]",
 			extras: []extraFile{{".grol111.tmp", "a=0\nb=\"hel"}, {"notes.txt", "keep me\n"}, {".grol", "x"}}},
 	}
@@ -941,7 +956,7 @@ func (h *harness) hookSweep(p *pair, thorough bool) {
 	}
 	n := len(p.newChunks)
 	maxW := 8
-	if thorough {
+	if thorough || p.allW {
 		maxW = 1000
 	}
 	h.scenario(p, "crash:start#1")
@@ -973,8 +988,29 @@ func (h *harness) hookSweep(p *pair, thorough bool) {
 	if n > 0 {
 		h.scenario(p, "fail2:write#1")
 		total := len(p.newBytes)
+		done := map[int]bool{}
 		for _, L := range tornPoints(total-1, false) {
+			done[L] = true
 			h.scenario(p, fmt.Sprintf("fsize:%d", L))
+		}
+		// the hook counts the writes of ONE Environment.SaveGlobals call; the file-size limit counts bytes of the whole
+		// temporary file, so it reaches every write the save makes, whoever makes it: one failure at the start and one in
+		// the middle of each write of the reference run
+		acc := 0
+		for j, ch := range p.newChunks {
+			sel := false
+			for _, x := range pick(n, maxW) {
+				sel = sel || x == j+1
+			}
+			if sel {
+				for _, L := range []int{acc, acc + len(ch)/2} {
+					if !done[L] && L < total {
+						done[L] = true
+						h.scenario(p, fmt.Sprintf("fsize:%d", L))
+					}
+				}
+			}
+			acc += len(ch)
 		}
 	}
 	h.scenario(p, "unchanged")
@@ -1085,6 +1121,7 @@ func runC18(c *Ctx) {
 	// hook-free: quick = the save path of one pair; thorough = the whole run of several pairs
 	if !c.Thorough() {
 		h.straceSweep(byName["small-to-small"], false)
+		h.straceSweep(byName["macros-many"], false)
 		for i := 0; i < 8; i++ {
 			h.scenario(byName["many-to-many"], fmt.Sprintf("timed:%d", c.R.Intn(400)))
 		}
